@@ -56,7 +56,7 @@ func init() {
 			"scheduling granularity = channel/lock/store operations (plus file-system calls in 1/3 of the cases)",
 			"the target is a regular file on tmpfs; block devices are not simulated",
 		},
-		Real: []string{"AssembleFile", "writeChunk", "SeedSequencer", "Plan.Validate", "FileSeed", "fileSeedSegment", "selfSeed", "nullChunkSeed", "RegenerateIndex/IndexFromFile"},
+		Real: []string{"AssembleFile", "writeChunk", "SeedSequencer", "Plan.Validate", "FileSeed", "fileSeedSegment", "selfSeed", "nullChunkSeed", "RegenerateIndex/IndexFromFile", "the desync binary built from cmd/desync (process-level share)"},
 		Stub: []string{"chunk store", "FICLONERANGE (emulator)", "scheduler", "seed mutator"},
 	})
 	reg(&Prop{ID: "C07", Level: "exploration",
@@ -68,7 +68,7 @@ func init() {
 			"a cancelled call that did finish its work may return nil or an error; only nil with incomplete work is a violation",
 			"in the bubble, signals are represented by cancellation of the root context, which is all cmd/desync/main.go does on SIGINT/SIGTERM; the process-level share delivers the real signals",
 		},
-		Real: []string{"AssembleFile", "Plan.Validate", "VerifyIndex", "ChopFile", "Copy", "ChunkStream", "IndexFromFile", "Tar", "UnTar", "UnTarIndex"},
+		Real: []string{"AssembleFile", "Plan.Validate", "VerifyIndex", "ChopFile", "Copy", "ChunkStream", "IndexFromFile", "Tar", "UnTar", "UnTarIndex", "the desync binary built from cmd/desync (process-level share)"},
 		Stub: []string{"chunk stores", "scheduler", "context cancellation instant", "gated HTTP chunk server (process level)"},
 	})
 	reg(&Prop{ID: "C06", Level: "exploration",
@@ -79,7 +79,7 @@ func init() {
 			"store failures are injected at call granularity (the call returns an error without side effect)",
 			"in-bubble, tar -i is covered through ChunkStream (the same function the command uses) with a byte reader instead of the tar pipe; the command itself runs at process level",
 		},
-		Real: []string{"ChunkStorage", "ChopFile", "Copy", "ChunkStream", "IndexFromFile", "readChunkFromFile"},
+		Real: []string{"ChunkStorage", "ChopFile", "Copy", "ChunkStream", "IndexFromFile", "readChunkFromFile", "the desync binary built from cmd/desync (process-level share)"},
 		Stub: []string{"source and target stores (fault injecting)", "scheduler"},
 	})
 	reg(&Prop{ID: "C11", Level: "exploration",
@@ -90,7 +90,7 @@ func init() {
 			"which failover member is consulted at each attempt is not predicted (it depends on a shared index); the oracle bounds attempts by the group size and requires success whenever one member never fails",
 			"de-duplication queues in chains are covered by C12, not here",
 		},
-		Real: []string{"StoreRouter", "Cache", "RepairableCache", "FailoverGroup", "SwapStore"},
+		Real: []string{"StoreRouter", "Cache", "RepairableCache", "FailoverGroup", "SwapStore", "the desync binary built from cmd/desync (process-level share)"},
 		Stub: []string{"member stores (content + fault schedule, call log)", "scheduler", "loopback HTTP members and local directories (process level)"},
 	})
 	reg(&Prop{ID: "C09", Level: "exploration",
@@ -101,7 +101,7 @@ func init() {
 			"no FUSE mount is possible in the sandbox: the node methods (Open/Read/Getattr) are driven in process, the kernel <-> go-fuse path is not exercised",
 			"FUSE offsets are limited to 0..size as the kernel does after Getattr",
 		},
-		Real: []string{"IndexPos", "NewIndexReadSeeker", "indexFile", "indexFileHandle", "NullChunk"},
+		Real: []string{"IndexPos", "NewIndexReadSeeker", "indexFile", "indexFileHandle", "NullChunk", "the desync binary built from cmd/desync (process-level share)"},
 		Stub: []string{"chunk store (fault injecting)", "kernel/go-fuse bridge", "scheduler"},
 	})
 	reg(&Prop{ID: "C10", Level: "exploration",
@@ -123,7 +123,7 @@ func init() {
 			"single-byte change = one bit flipped in that byte; other byte values are covered by the hash's properties, not enumerated",
 			"exhaustive over byte positions only for blobs <= 1500 bytes (stated per case in the notes)",
 		},
-		Real: []string{"VerifyIndex", "fileSeedSegment.Validate", "Digest"},
+		Real: []string{"VerifyIndex", "fileSeedSegment.Validate", "Digest", "the desync binary built from cmd/desync (process-level share)"},
 		Stub: []string{"scheduler", "fault injector on the stored blob"},
 	})
 	reg(&Prop{ID: "C03", Level: "fault_enumeration",
@@ -134,7 +134,7 @@ func init() {
 			"the S3 endpoint is a minimal path-style server written for the harness, signatures are not checked",
 			"no hop facing the caller has SkipVerify set; server-side stores may (the client hop verifies)",
 		},
-		Real: []string{"NewChunkFromStorage", "Chunk.Data/ID", "LocalStore", "RemoteHTTP", "HTTPHandler", "Protocol", "ProtocolServer", "Cache", "RepairableCache", "StoreRouter", "FailoverGroup", "DedupQueue", "SwapStore", "AssembleFile", "IndexPos", "S3Store (minio client)"},
+		Real: []string{"NewChunkFromStorage", "Chunk.Data/ID", "LocalStore", "RemoteHTTP", "HTTPHandler", "Protocol", "ProtocolServer", "Cache", "RepairableCache", "StoreRouter", "FailoverGroup", "DedupQueue", "SwapStore", "AssembleFile", "IndexPos", "S3Store (minio client)", "the desync binary built from cmd/desync (process-level share)"},
 		Stub: []string{"HTTP transport (in-process RoundTripper)", "ssh transport (in-process pipe)", "S3 endpoint (loopback)", "fault injector on stored objects"},
 	})
 	reg(&Prop{ID: "C14", Level: "exploration",
@@ -146,7 +146,7 @@ func init() {
 			"after a missing chunk the protocol server ends the session; later requests on that session may fail but must not be answered wrongly",
 			"TLS and authentication headers are not exercised; real sockets and child processes only in the process-level share",
 		},
-		Real: []string{"RemoteHTTP", "RemoteHTTPIndex", "IssueRetryableHttpRequest", "HTTPHandler", "HTTPIndexHandler", "Converters", "Protocol", "ProtocolServer", "LocalStore", "LocalIndexStore"},
+		Real: []string{"RemoteHTTP", "RemoteHTTPIndex", "IssueRetryableHttpRequest", "HTTPHandler", "HTTPIndexHandler", "Converters", "Protocol", "ProtocolServer", "LocalStore", "LocalIndexStore", "the desync binary built from cmd/desync (process-level share)"},
 		Stub: []string{"HTTP transport (scripted in-process RoundTripper)", "ssh pipe", "fake clock (synctest)"},
 	})
 	reg(&Prop{ID: "C04", Level: "fault_enumeration",
@@ -157,7 +157,7 @@ func init() {
 			"the round-trip half is a pure function of the index; it runs here as the fault-free configuration of the same harness (DESIGN.md C04 honest limit)",
 			"the console (stdin/stdout) index store is exercised at process level only: 1/25 of the cases run the real `desync list-chunks` and `desync info` on the index file or on standard input (intact: printed table/parameters equal the index; 6 truncations, swapped offsets, oversize chunk, flipped digest flag: exit status must be non-zero) and `desync make -` (bytes on standard output == bytes written to a file == independent chunker and parser)",
 		},
-		Real: []string{"Index.WriteTo", "IndexFromReader", "FormatDecoder", "FormatEncoder", "LocalIndexStore", "RemoteHTTPIndex", "HTTPIndexHandler", "S3IndexStore (minio-go client)", "SFTPIndexStore (pkg/sftp client)", "ConsoleIndexStore via desync list-chunks/info/make -"},
+		Real: []string{"Index.WriteTo", "IndexFromReader", "FormatDecoder", "FormatEncoder", "LocalIndexStore", "RemoteHTTPIndex", "HTTPIndexHandler", "S3IndexStore (minio-go client)", "SFTPIndexStore (pkg/sftp client)", "ConsoleIndexStore via desync list-chunks/info/make -", "the desync binary built from cmd/desync (process-level share)"},
 		Stub: []string{"HTTP transport", "S3 endpoint (in-harness, path style, signatures unchecked)", "sftp server (pkg/sftp over stdio)", "fragmenting reader", "fault injector on stored index bytes"},
 	})
 	reg(&Prop{ID: "C19", Level: "fault_enumeration",
@@ -169,7 +169,7 @@ func init() {
 			"size values between 2^31 and 2^47 are not injected: the unpatched decoder would really try to allocate them and take the sandbox down; 2^20/2^28 (really allocated) and >= 2^50 (makeslice panic) bracket that range",
 			"catar inputs are the five casync-made fixtures of the repository or archives produced by desync itself from generated trees",
 		},
-		Real: []string{"IndexFromReader", "FormatDecoder", "ArchiveDecoder", "Protocol.ReadMessage", "HTTPIndexHandler.put", "reader"},
+		Real: []string{"IndexFromReader", "FormatDecoder", "ArchiveDecoder", "Protocol.ReadMessage", "HTTPIndexHandler.put", "reader", "the desync binary built from cmd/desync (process-level share)"},
 		Stub: []string{"faulting reader", "HTTP request recorder"},
 	})
 	reg(&Prop{ID: "C05", Level: "exploration",
@@ -181,7 +181,7 @@ func init() {
 			"GNU tar output: xattrs and sub-second mtimes are not compared (the format cannot carry them); a refusal by archive/tar is not a wrong result",
 			"mtree output: xattrs and device numbers are not compared (desync's mtree writer does not carry them); fifos/sockets are not exercised",
 		},
-		Real: []string{"Tar", "UnTar", "UnTarIndex", "ChunkStream", "ArchiveDecoder", "FormatEncoder/Decoder", "LocalFS", "TarReader", "TarWriter", "Index codec"},
+		Real: []string{"Tar", "UnTar", "UnTarIndex", "ChunkStream", "ArchiveDecoder", "FormatEncoder/Decoder", "LocalFS", "TarReader", "TarWriter", "Index codec", "the desync binary built from cmd/desync (process-level share)"},
 		Stub: []string{"chunk store (latency)", "scheduler"},
 	})
 	reg(&Prop{ID: "C08", Level: "fault_enumeration",
@@ -192,7 +192,7 @@ func init() {
 			"process death = freezing every task at a file-system point: equivalent to SIGKILL for file contents (page cache survives, no user-space buffering on this path); power loss is out of scope of the property",
 			"a torn write is modelled at whole-file granularity on the file that grew in the last step",
 		},
-		Real: []string{"LocalStore.StoreChunk", "LocalStore.Prune", "ChopFile", "Copy", "ChunkStorage", "tempfile"},
+		Real: []string{"LocalStore.StoreChunk", "LocalStore.Prune", "ChopFile", "Copy", "ChunkStorage", "tempfile", "the desync binary built from cmd/desync (process-level share)"},
 		Stub: []string{"scheduler", "crash injector (task freeze in the bubble; SIGKILL via gated server or ptrace at process level)", "source store"},
 	})
 	reg(&Prop{ID: "C16", Level: "exploration",
@@ -203,7 +203,7 @@ func init() {
 			"the name-filter logic is a pure function of the directory listing (DESIGN.md C16 honest limit); the simulated parts are the store history (killed writers, corruption) and the concurrent Verify workers",
 			"SFTP prune is not exercised; S3 prune (1/12 of the cases) runs against a minimal in-harness S3 endpoint",
 		},
-		Real: []string{"LocalStore.Prune", "LocalStore.Verify", "LocalStore.RemoveChunk", "LocalStore.GetChunk"},
+		Real: []string{"LocalStore.Prune", "LocalStore.Verify", "LocalStore.RemoveChunk", "LocalStore.GetChunk", "the desync binary built from cmd/desync (process-level share)"},
 		Stub: []string{"scheduler", "store-history generator"},
 	})
 }
